@@ -85,6 +85,25 @@ CHECKS = {
         '(stated in Dom.v, validated by correspondence).',
    tech='Coq invariant proof over a pointer-heap model, induction over operation lists + lock-step correspondence',
    ref='5/C08'),
+ 'C10': dict(
+   text='Proof (Coq): model of _scanoneelement/_parseoneelement/_used_auto_styles (the while loop with its measure: unselected styles). '
+        'Every automatic style (any element of office:automatic-styles with a style:name) referenced from below a scanned segment through '
+        'a scanned attribute (lists split) is selected; every one referenced from a selected style is selected too (closure, any chain '
+        'length); the selection is a sub-list of the document\'s own style nodes (unchanged, at most once). Table obligation re-proved on '
+        'every run: the scanned attribute set (regenerated from the code) covers every attribute the ODF 1.2 schema types '
+        'styleNameRef(s) (regenerated from the RNG). contentxml/stylesxml call sites tied byte-exactly.',
+   note='Axioms: none. Style kinds share the style:name key as in the code.',
+   tech='Coq proof (loop invariant + termination measure) + regenerated tables (code and RNG) + correspondence',
+   ref='5/C10'),
+ 'C12': dict(
+   text='Proof (Coq): the renderers are functions of the eight section trees; contentxml/stylesxml/settingsxml leave the document as it '
+        'is, metaxml/xml/save leave it with the generator normalised (exactly one generator, the library\'s, other meta children kept in '
+        'order; idempotent); after ANY sequence of rendering calls each renderer returns exactly what it returns on the fresh document and '
+        'the document equals the original up to generator normalisation. Tied by byte-exact correspondence of every renderer and by a '
+        'full-snapshot oracle (sections, topnode, index, queries) around every call of every sequence up to length 2/3.',
+   note='Axioms: none. That rendering touches nothing outside the section trees is checked by the oracle, not proved.',
+   tech='Coq proof (idempotence, induction over call sequences) + byte-exact correspondence',
+   ref='5/C12'),
  'C13': dict(
    text='PARTIAL. Proved (Coq): every XML parser construction / parse-call site of the odf package is a defusedxml one (table '
         'regenerated from the working tree by an ast walk with import resolution, obligation re-checked every run); every entry point has '
